@@ -683,6 +683,13 @@ impl World {
                     let p = r.p;
                     let len = r.var()? as usize;
                     structural.push((p, r.p - p));
+                    if (first >> 4) & 3 == 0 {
+                        // Initial: packet number bytes and the header-protection sample. An
+                        // endpoint without a connection for this packet unmasks the header and
+                        // branches on the reserved bits before authenticating anything; damage
+                        // here would make that branch depend on ciphertext bytes
+                        structural.push((r.p, 20));
+                    }
                     Ok(r.p + len)
                 })();
                 if off < n {
@@ -745,6 +752,10 @@ impl World {
         });
         self.in_flight += 1;
         self.schedule(at, Ev::Deliver(id));
+        if self.log_on {
+            let head = crate::util::hex(&self.dgrams[id as usize].bytes[..self.dgrams[id as usize].bytes.len().min(28)]);
+            self.logf(|| format!("inject dgram#{} ({}, parent #{}) {} -> {} head={}", id, note, parent as i64, src, dst, head));
+        }
         id
     }
 
